@@ -757,6 +757,44 @@ func c12Guards(c *Ctx) {
 					}
 					k, isC := constInt(x.Index)
 					if !isC {
+						// buf.Bytes()[buf.Len()-k]: guarded by a test of buf.Len() with no write to the buffer in between
+						if b, ok := x.Index.(*ssa.BinOp); ok && b.Op == token.SUB {
+							lc, _ := callOf(b.X)
+							bc, _ := callOf(x.X)
+							if kk, isK := constInt(b.Y); isK && lc != nil && bc != nil && calleeID(&lc.Call) == "(*bytes.Buffer).Len" && calleeID(&bc.Call) == "(*bytes.Buffer).Bytes" && (sameAddr(lc.Call.Args[0], bc.Call.Args[0]) || sameValue(lc.Call.Args[0], bc.Call.Args[0])) {
+								n++
+								recv := lc.Call.Args[0]
+								guarded := false
+								for _, fc := range factsAt(x.Block()) {
+									op, a, bb, okc := cmpFact(fc)
+									gc, _ := callOf(a)
+									lim, isL := constInt(bb)
+									if !okc || gc == nil || !isL || calleeID(&gc.Call) != "(*bytes.Buffer).Len" || !(sameAddr(gc.Call.Args[0], recv) || sameValue(gc.Call.Args[0], recv)) {
+										continue
+									}
+									if !((op == token.GTR && lim+1 >= kk) || (op == token.GEQ && lim >= kk)) {
+										continue
+									}
+									// nothing writes to the buffer between the tested Len() and the access
+									hit, _ := reachAvoid(gc, func(in ssa.Instruction) bool {
+										ci, isCall := in.(ssa.CallInstruction)
+										if !isCall || len(ci.Common().Args) == 0 || !(sameAddr(ci.Common().Args[0], recv) || sameValue(ci.Common().Args[0], recv)) {
+											return false
+										}
+										switch calleeID(ci.Common()) {
+										case "(*bytes.Buffer).Len", "(*bytes.Buffer).Bytes", "(*bytes.Buffer).Cap", "(*bytes.Buffer).String":
+											return false
+										}
+										return true
+									}, func(in ssa.Instruction) bool { return in == ssa.Instruction(x) })
+									if hit == nil {
+										guarded = true
+									}
+								}
+								c.check(guarded, fmt.Sprintf("%s/index[buf.Len-%d]", name, kk), c.ipos(x), "indexing a buffer from its end is guarded by a test of its length", fmt.Sprintf("buf.Bytes()[buf.Len()-%d] without a dominating buf.Len() >= %d (an empty buffer panics)", kk, kk))
+								return
+							}
+						}
 						// x[len(x)-k]
 						if b, ok := x.Index.(*ssa.BinOp); ok && b.Op == token.SUB && isLenOf(b.X, isValue(x.X)) {
 							if kk, ok := constInt(b.Y); ok {
